@@ -41,9 +41,13 @@ pass-through `fwd`):
 * `C13_two_no_deadlock` — **deadlock freedom under `PoolOK`**: a reachable configuration without enabled step is
   final (every schedule, capacity, batch size, `num_steps`, failing inputs / `iterator_fn`, FIFO or any-order pool);
 * `C13_two_stuck_no_unstarted` — under `PoolOK` no task is left unstarted in a quiescent configuration;
-* `C13_two_fifo`, `C13_two_output_exactly_once` — conservation, the part proved: inside EACH queue nothing is
-  duplicated, dropped or reordered (`produced = dequeued ++ q`), and every element put into the OUTPUT queue is, exactly
-  once, delivered to the caller / dropped by the caller's final raise or early stop / still queued.
+* `C13_two_fifo`, `C13_two_output_exactly_once`, `C13_two_second_level_exactly_once_partial` — conservation, the part
+  proved: inside EACH queue nothing is duplicated, dropped or reordered (`produced = dequeued ++ q`); every element
+  put into the OUTPUT queue is, exactly once, delivered to the caller / dropped by the caller's final raise or early
+  stop / still queued; what the caller holds ++ dropped ++ queued is exactly what the second-level tasks have put, and
+  what a task has put is — in order, without repetition — part of `iterator_fn`'s outputs for the values the task pulled
+  from the input queue (missing for the full statement: the consumer side of the INPUT queue — pulled values vs.
+  `Q1.dequeued` through the shared cache —, the first level, and equality instead of inclusion in clean runs).
 
 NOT proved (full statements, kept visible):
 * conservation across both levels: `theorem C13_two_multiset : Reachable F c0 c → c.allDone → delivered outputs of the
@@ -321,6 +325,42 @@ theorem C13_two_output_exactly_once {cap1 cap2 bm1 bm2 mw : Nat} {ns : Option Na
   have := out_reachable h hg0 ho t ht
   rw [(C13_two_fifo h).2]
   exact this.append_right _
+
+open MlModel.Queue (seqOf) in
+/-- **second level, exactly-once on the producer side and delivery side** (every schedule, both kinds of
+`iterator_fn`, failures and early stop included) — a `_partial` of conservation across both levels (see the file
+header): in every reachable configuration
+* the values the caller holds ++ dropped ++ still queued in the output queue are, as a multiset, exactly the values the
+  second-level tasks have put (`emitted`), and
+* for every second-level task, what it has put is a sublist of `iterator_fn`'s outputs over the values it pulled from
+  the input queue, in pull order: no output is invented, none is put twice, the order is kept. -/
+theorem C13_two_second_level_exactly_once_partial {cap1 cap2 bm1 bm2 mw : Nat} {ns : Option Nat} {fwd ff : Bool}
+    {inputs : List InSpec} {gens : List Nat} {c : Piter2.Cfg}
+    (h : Reachable F (initF cap1 cap2 bm1 bm2 mw ns fwd ff inputs gens) c) {t0 : Th} (ht0 : c.ths[0]? = some t0) :
+    List.Perm ((seqOf t0.b ++ c.s2.lost ++ c.s2.q).map (·.2)) (c.ths.map em2).flatten ∧
+    ∀ t ∈ c.ths, t.role = .l2 → t.emitted.Sublist (t.pulled.flatMap (Fp F)) := by
+  have hg0 := good_initF cap1 cap2 bm1 bm2 mw ns fwd ff inputs gens
+  have h0 : L2Inv F (initF cap1 cap2 bm1 bm2 mw ns fwd ff inputs gens) := by
+    constructor
+    · intro t ht _
+      simp only [initF, Piter2.init, List.mem_cons, List.mem_append, List.mem_map] at ht
+      rcases ht with rfl | ⟨i, _, rfl⟩ | ⟨g, _, rfl⟩ <;> simp [mkCons, mkL1, mkL2, inflight, Queue.putPc]
+    · have : ∀ t ∈ (initF cap1 cap2 bm1 bm2 mw ns fwd ff inputs gens).ths, em2 t = [] := by
+        intro t ht
+        simp only [initF, Piter2.init, List.mem_cons, List.mem_append, List.mem_map] at ht
+        rcases ht with rfl | ⟨i, _, rfl⟩ | ⟨g, _, rfl⟩ <;> simp [em2, mkCons, mkL1, mkL2]
+      have hfl : ((initF cap1 cap2 bm1 bm2 mw ns fwd ff inputs gens).ths.map em2).flatten = [] := by
+        rw [List.flatten_eq_nil_iff]
+        intro l hl
+        obtain ⟨t, ht, rfl⟩ := List.mem_map.mp hl
+        exact this t ht
+      rw [hfl]
+      simp [initF, Piter2.init]
+  have hv := l2inv_reachable h hg0 h0
+  refine ⟨((C13_two_output_exactly_once h ht0).map (·.2)).symm.trans hv.prod, fun t ht hr => ?_⟩
+  have := hv.bal t ht hr
+  rw [List.append_assoc] at this
+  exact (List.sublist_append_left _ _).trans this
 
 /-- test (by `decide`), non-vacuity of `C13_two_no_deadlock` and `C13_two_stuck_all_parked`: two inputs, one
 `iterator_fn` task, FIFO pool with 3 workers, both queues of capacity 1 — a complete run (100 steps) ends in a
